@@ -8,18 +8,368 @@ import TddaVerif.Lemmas.RexpyRefine
 namespace TddaVerif.Props.C03.Lemmas
 open TddaVerif.Py TddaVerif.Rexpy TddaVerif.Props.C03
 
+set_option linter.unusedSimpArgs false
+set_option linter.unusedVariables false
+
+/-! ### extra letters -/
+
+theorem normExtras_idem (e : List Char) : normExtras (normExtras e) = normExtras e := by
+  unfold normExtras
+  apply List.filter_congr
+  intro c hc
+  rw [Bool.eq_iff_iff]
+  simp only [List.contains_iff_mem, List.mem_filter]
+  exact ⟨fun h => h.2, fun h => ⟨hc, h⟩⟩
+
+theorem thinExtras_norm (extras : List Char) (strings : List Line) :
+    thinExtras extras strings = normExtras (thinExtras extras strings) := by
+  unfold thinExtras
+  split <;> rw [normExtras_idem]
+
+/-! ### from a covering VRLE to a match of its coarse pattern -/
+
+theorem covers_length {v : Vrle} {r : List (Char × Nat)} (h : Covers v r) : v.length = r.length := by
+  have := congrArg List.length h.1
+  simpa [sigOf] using this
+
+theorem covers_cons {e : Char × Nat × Option Nat} {es : Vrle} {x : Char × Nat} {xs : List (Char × Nat)}
+    (h : Covers (e :: es) (x :: xs)) :
+    e.1 = x.1 ∧ ((∀ M, e.2.2 = some M → e.2.1 ≤ x.2 ∧ x.2 ≤ M) ∧ (e.2.2 = none → min e.2.1 1 ≤ x.2)) ∧
+      Covers es xs := by
+  obtain ⟨h1, h2⟩ := h
+  simp only [sigOf, List.map_cons, List.cons.injEq] at h1
+  refine ⟨h1.1, ?_, h1.2, ?_⟩
+  · have := h2 0 (by simp)
+    rcases e with ⟨k, m, _ | M⟩
+    · simpa using this
+    · simpa using this
+  · intro i hi
+    have := h2 (i + 1) (by simpa using hi)
+    simpa using this
+
+theorem matches_of_covers (T : CharTable) (E : List Char) (f : Char → Char) (v : Vrle)
+    (r : List (Char × Nat)) (s : Line) (hc : Covers v r) (hr : Runs f r s)
+    (hs : ∀ c ∈ s, inCat T E (f c) c = true) : Matches T E (fragsOfVrle v) s := by
+  induction v generalizing r s with
+  | nil =>
+    have hl := covers_length hc
+    cases r with
+    | nil => simp only [Runs] at hr; subst hr; exact Matches.nil
+    | cons x xs => simp at hl
+  | cons e es ih =>
+    cases r with
+    | nil => have hl := covers_length hc; simp at hl
+    | cons x xs =>
+      obtain ⟨p, q, rfl, hpl, hpf, hq⟩ := hr
+      obtain ⟨h1, h2, h3⟩ := covers_cons hc
+      have hrest := ih xs q h3 hq (fun c hc' => hs c (by simp [hc']))
+      obtain ⟨k, m, M⟩ := e
+      show Matches T E ({ atom := .code k, m := m, M := M, fixed := false } :: fragsOfVrle es) (p ++ q)
+      refine Matches.cons _ _ p q ?_ hrest
+      rw [fragAccepts_iff _ _ _ (by simp)]
+      simp only at h1 h2
+      refine ⟨?_, ?_, ?_⟩
+      · cases M with
+        | none => simpa [Frag.lo, hpl] using h2.2 rfl
+        | some M => simpa [Frag.lo, hpl] using (h2.1 M rfl).1
+      · intro M' hM'
+        simp only at hM'
+        rw [hpl]
+        exact (h2.1 M' hM').2
+      · intro c hc'
+        have := hs c (by simp [hc'])
+        rw [hpf c hc', ← h1] at this
+        simpa [atomChar] using this
+
+theorem coarseRle_runs (T : CharTable) (hT : Consistent T) (E : List Char) (hE : E = normExtras E) (s : Line) :
+    ∃ f : Char → Char, Runs f (coarseRle T E s) s ∧ ∀ c, inCat T E (f c) c = true := by
+  unfold coarseRle
+  simp only
+  split
+  · exact ⟨coarse T E, runs_rle _ s, coarse_sound T hT E hE⟩
+  · exact ⟨fun _ => cAny, runs_rle _ s, fun c => inCat_cAny T E c⟩
+
+theorem coarseRle_pos (T : CharTable) (E : List Char) (s : Line) : ∀ x ∈ coarseRle T E s, 0 < x.2 := by
+  unfold coarseRle
+  simp only
+  split
+  · exact (rle_expand _).2
+  · exact (rle_expand _).2
+
+/-! ### the whitespace wrap -/
+
+theorem fragAccepts_ws (T : CharTable) (E : List Char) (g : Line) :
+    fragAccepts T E wsFrag g = true ↔ ∀ c ∈ g, T.s c = true := by
+  rw [fragAccepts_iff _ _ _ (by simp [wsFrag])]
+  simp [wsFrag, Frag.lo, atomChar, inCat_cWhite]
+
+theorem matches_ws_iff (T : CharTable) (E : List Char) (g : Line) :
+    Matches T E [wsFrag] g ↔ ∀ c ∈ g, T.s c = true := by
+  constructor
+  · intro h
+    cases h with
+    | cons _ _ g' rest hg hrest =>
+      cases hrest
+      simpa using (fragAccepts_ws T E g').1 hg
+  · intro h
+    simpa using Matches.cons wsFrag [] g [] ((fragAccepts_ws T E g).2 h) Matches.nil
+
+theorem matches_wrap (T : CharTable) (E : List Char) (w : Bool) (p : Pattern) (s : Line)
+    (h : Matches T E p s) : Matches T E (wrapWs w p) s := by
+  rw [wrapWs_eq]
+  cases w with
+  | false => simpa [wsL] using h
+  | true =>
+    have hn : Matches T E [wsFrag] [] := (matches_ws_iff T E []).2 (by simp)
+    simpa [wsL] using matches_append T E _ _ _ _ (matches_append T E _ _ _ _ hn h) hn
+
+theorem matches_append_inv (T : CharTable) (E : List Char) (p q : Pattern) (s : Line)
+    (h : Matches T E (p ++ q) s) : ∃ s1 s2, s = s1 ++ s2 ∧ Matches T E p s1 ∧ Matches T E q s2 := by
+  induction p generalizing s with
+  | nil => exact ⟨[], s, rfl, Matches.nil, h⟩
+  | cons f fs ih =>
+    rw [List.cons_append] at h
+    cases h with
+    | cons _ _ g rest hg hrest =>
+      obtain ⟨s1, s2, rfl, h1, h2⟩ := ih rest hrest
+      exact ⟨g ++ s1, s2, by simp, Matches.cons f fs g s1 hg h1, h2⟩
+
+/-- a match of the (possibly wrapped) pattern on the stripped string is a match on the original -/
+theorem matches_unstrip (T : CharTable) (hT : Consistent T) (E : List Char) (w : Bool) (p : Pattern) (s : Line)
+    (hw : w = false → (strip s).length = s.length)
+    (h : Matches T E (wrapWs w p) (strip s)) : Matches T E (wrapWs w p) s := by
+  obtain ⟨pre, post, hdec, hpre, hpost⟩ := strip_decompose s
+  cases w with
+  | false =>
+    have hl := hw rfl
+    have hlen := congrArg List.length hdec
+    simp only [List.length_append] at hlen
+    have h1 : pre = [] := List.length_eq_zero_iff.1 (by omega)
+    have h2 : post = [] := List.length_eq_zero_iff.1 (by omega)
+    have hs : s = strip s := by
+      rw [h1, h2] at hdec
+      simpa using hdec
+    rw [hs]
+    exact h
+  | true =>
+    rw [wrapWs_eq] at h ⊢
+    simp only [wsL, if_true] at h ⊢
+    obtain ⟨ab, c, h0, hab, hc⟩ := matches_append_inv T E _ _ _ h
+    obtain ⟨a, b, rfl, ha, hb⟩ := matches_append_inv T E _ _ _ hab
+    have ha' : Matches T E [wsFrag] (pre ++ a) := by
+      rw [matches_ws_iff] at ha ⊢
+      intro x hx
+      rcases List.mem_append.1 hx with hx | hx
+      · exact hT.2.2 x (hpre x hx)
+      · exact ha x hx
+    have hc' : Matches T E [wsFrag] (c ++ post) := by
+      rw [matches_ws_iff] at hc ⊢
+      intro x hx
+      rcases List.mem_append.1 hx with hx | hx
+      · exact hc x hx
+      · exact hT.2.2 x (hpost x hx)
+    have := matches_append T E _ _ _ _ (matches_append T E _ _ _ _ ha' hb) hc'
+    have hs : s = pre ++ a ++ b ++ (c ++ post) := by
+      rw [hdec, h0]
+      simp
+    rw [hs]
+    exact this
+
+/-! ### `mapM` in `Option` -/
+
+theorem mapM_length {α β : Type} (f : α → Option β) (l : List α) (bs : List β)
+    (h : l.mapM f = some bs) : bs.length = l.length := by
+  induction l generalizing bs with
+  | nil => simp at h; subst h; rfl
+  | cons a as ih =>
+    rw [List.mapM_cons] at h
+    cases hfa : f a with
+    | none => simp [hfa] at h
+    | some b =>
+      cases hr : as.mapM f with
+      | none => simp [hfa, hr] at h
+      | some bs' =>
+        simp [hfa, hr] at h
+        subst h
+        simp [ih bs' hr]
+
+theorem mapM_mem {α β : Type} (f : α → Option β) (l : List α) (bs : List β)
+    (h : l.mapM f = some bs) : ∀ b ∈ bs, ∃ a ∈ l, f a = some b := by
+  induction l generalizing bs with
+  | nil => simp at h; subst h; simp
+  | cons a as ih =>
+    rw [List.mapM_cons] at h
+    cases hfa : f a with
+    | none => simp [hfa] at h
+    | some b =>
+      cases hr : as.mapM f with
+      | none => simp [hfa, hr] at h
+      | some bs' =>
+        simp [hfa, hr] at h
+        subst h
+        intro b' hb'
+        rcases List.mem_cons.1 hb' with rfl | hb'
+        · exact ⟨a, by simp, hfa⟩
+        · obtain ⟨a', ha', hf⟩ := ih bs' hr b' hb'
+          exact ⟨a', by simp [ha'], hf⟩
+
+/-! ### `eraseDups` -/
+
+theorem nodup_eraseDups {α} [BEq α] [LawfulBEq α] : ∀ (n : Nat) (l : List α), l.length ≤ n → l.eraseDups.Nodup := by
+  intro n
+  induction n with
+  | zero =>
+    intro l hl
+    cases l with
+    | nil => simp
+    | cons a as => simp at hl
+  | succ n ih =>
+    intro l hl
+    cases l with
+    | nil => simp
+    | cons a as =>
+      rw [List.eraseDups_cons, List.nodup_cons]
+      refine ⟨?_, ih _ ?_⟩
+      · intro hmem
+        have := (List.mem_filter.1 (List.mem_eraseDups.1 hmem)).2
+        simp at this
+      · simp only [List.length_cons, Nat.add_le_add_iff_right] at hl
+        exact Nat.le_trans (List.length_filter_le _ _) hl
+
+theorem eraseDups_map_length_le {α β} [BEq α] [LawfulBEq α] [BEq β] [LawfulBEq β] (f : α → β) (l : List α) :
+    (l.map f).eraseDups.length ≤ l.eraseDups.length := by
+  have hsub : (l.map f).eraseDups ⊆ l.eraseDups.map f := by
+    intro b hb
+    obtain ⟨a, ha, rfl⟩ := List.mem_map.1 (List.mem_eraseDups.1 hb)
+    exact List.mem_map.2 ⟨a, List.mem_eraseDups.2 ha, rfl⟩
+  have := ((nodup_eraseDups _ (l.map f) (Nat.le_refl _)).subperm hsub).length_le
+  simpa using this
+
+/-! ### the batch pipeline -/
+
+/-- the (normalised, thinned) extra letters `batchExtract` works with -/
+def bE (o : Opts) (cl : Cleaned) : List Char := thinExtras o.extras cl.strings
+
+def bRles (T : CharTable) (o : Opts) (cl : Cleaned) : List (List (Char × Nat)) :=
+  cl.strings.map (coarseRle T (bE o cl))
+
+def bVrles (T : CharTable) (o : Opts) (cl : Cleaned) : List Vrle := toVrles (bRles T o cl).eraseDups
+
+/-- the examples of the signature group of `v` -/
+def bEx (T : CharTable) (o : Opts) (cl : Cleaned) (v : Vrle) : List Line :=
+  (cl.strings.zip (bRles T o cl)).filterMap (fun sr => if sigOf sr.2 == sigOf v then some sr.1 else none)
+
+def bF (T : CharTable) (o : Opts) (cl : Cleaned) (v : Vrle) : Option Pattern :=
+  refineVrle T (bE o cl) o.vlf o.sizes (decide (cl.nStripped > 0)) v (bEx T o cl v)
+
+def merged (ps : List Pattern) : List Pattern := if ps.length == 1 then ps else sortByLength ps
+
+theorem batchExtract_eq (T : CharTable) (o : Opts) (cl : Cleaned) :
+    batchExtract T o cl = ((bVrles T o cl).mapM (bF T o cl)).map (fun ps => (merged ps, bE o cl)) := rfl
+
+theorem mem_merged (ps : List Pattern) (p : Pattern) : p ∈ merged ps ↔ p ∈ ps := by
+  unfold merged
+  split
+  · exact Iff.rfl
+  · exact (sortByLength_perm ps).mem_iff
+
+theorem merged_length (ps : List Pattern) : (merged ps).length = ps.length := by
+  unfold merged
+  split
+  · rfl
+  · exact (sortByLength_perm ps).length_eq
+
+theorem mem_zip_filterMap {α β : Type} (l : List α) (g : α → β) (P : β → Bool) (e : α) :
+    e ∈ (l.zip (l.map g)).filterMap (fun sr => if P sr.2 then some sr.1 else none) ↔
+      e ∈ l ∧ P (g e) = true := by
+  induction l with
+  | nil => simp
+  | cons a as ih =>
+    simp only [List.map_cons, List.zip_cons_cons, List.filterMap_cons, List.mem_cons]
+    by_cases h : P (g a) = true
+    · simp only [h, if_true, List.mem_cons, ih]
+      constructor
+      · rintro (rfl | h')
+        · exact ⟨Or.inl rfl, h⟩
+        · exact ⟨Or.inr h'.1, h'.2⟩
+      · rintro ⟨rfl | h1, h2⟩
+        · exact Or.inl rfl
+        · exact Or.inr ⟨h1, h2⟩
+    · simp only [h, if_false, ih, Bool.false_eq_true]
+      constructor
+      · rintro ⟨h1, h2⟩
+        exact ⟨Or.inr h1, h2⟩
+      · rintro ⟨rfl | h1, h2⟩
+        · exact absurd h2 h
+        · exact ⟨h1, h2⟩
+
+theorem mem_bEx (T : CharTable) (o : Opts) (cl : Cleaned) (v : Vrle) (e : Line) :
+    e ∈ bEx T o cl v ↔ e ∈ cl.strings ∧ sigOf (coarseRle T (bE o cl) e) = sigOf v := by
+  have := mem_zip_filterMap cl.strings (coarseRle T (bE o cl)) (fun r => sigOf r == sigOf v) e
+  simpa [bEx, bRles] using this
+
+theorem bRles_pos (T : CharTable) (o : Opts) (cl : Cleaned) :
+    ∀ r ∈ (bRles T o cl).eraseDups, ∀ x ∈ r, 0 < x.2 := by
+  intro r hr
+  obtain ⟨s, -, rfl⟩ := List.mem_map.1 (List.mem_eraseDups.1 hr)
+  exact coarseRle_pos T _ s
+
+/-- every cleaned string has a covering VRLE, whose coarse pattern matches it -/
+theorem cover_of_string (T : CharTable) (hT : Consistent T) (o : Opts) (cl : Cleaned) (s : Line)
+    (hs : s ∈ cl.strings) :
+    ∃ v ∈ bVrles T o cl, sigOf v = sigOf (coarseRle T (bE o cl) s) ∧
+      Matches T (bE o cl) (fragsOfVrle v) s := by
+  have hr : coarseRle T (bE o cl) s ∈ (bRles T o cl).eraseDups :=
+    List.mem_eraseDups.2 (List.mem_map.2 ⟨s, hs, rfl⟩)
+  obtain ⟨v, hv, hcov⟩ := toVrles_covers _ (bRles_pos T o cl) _ hr
+  obtain ⟨f, hruns, hf⟩ := coarseRle_runs T hT (bE o cl) (thinExtras_norm _ _) s
+  exact ⟨v, hv, hcov.1, matches_of_covers T _ f v _ s hcov hruns (fun c _ => hf c)⟩
+
+theorem bF_sound (T : CharTable) (hT : Consistent T) (o : Opts) (hsz : 1 ≤ o.sizes.maxStringsInGroup)
+    (cl : Cleaned) (v : Vrle) (hv : v ∈ bVrles T o cl) :
+    ∃ p, bF T o cl v = some p ∧
+      ∀ e ∈ bEx T o cl v, Matches T (bE o cl) (wrapWs (decide (cl.nStripped > 0)) p) e := by
+  apply refineVrle_sound T hT _ _ _ hsz
+  intro e he
+  obtain ⟨hes, hsig⟩ := (mem_bEx T o cl v e).1 he
+  obtain ⟨v', hv', hsig', hm⟩ := cover_of_string T hT o cl e hes
+  have : v' = v := toVrles_sig_unique _ v' v hv' hv (hsig'.trans hsig)
+  subst this
+  exact matches_wrap T _ _ _ e hm
+
+theorem bEx_nonempty (T : CharTable) (o : Opts) (cl : Cleaned) (v : Vrle) (hv : v ∈ bVrles T o cl) :
+    ∃ s, s ∈ bEx T o cl v := by
+  obtain ⟨r, hr, hsig⟩ := toVrles_from _ v hv
+  obtain ⟨s, hs, rfl⟩ := List.mem_map.1 (List.mem_eraseDups.1 hr)
+  exact ⟨s, (mem_bEx T o cl v s).2 ⟨hs, hsig⟩⟩
+
 theorem batch_extract_sound (T : CharTable) (hT : Consistent T) (o : Opts)
     (hsz : 1 ≤ o.sizes.maxStringsInGroup) (cl : Cleaned) :
     ∃ ps E, batchExtract T o cl = some (ps, E) ∧
       ∀ s ∈ cl.strings, ∃ p ∈ ps, Matches T E (wrapWs (decide (cl.nStripped > 0)) p) s := by
-  sorry
+  obtain ⟨qs, hqs, h1, h2⟩ := mapM_some (bF T o cl) (bVrles T o cl) (fun v hv => by
+    obtain ⟨p, hp, -⟩ := bF_sound T hT o hsz cl v hv
+    exact ⟨p, hp⟩)
+  refine ⟨merged qs, bE o cl, by rw [batchExtract_eq, hqs]; rfl, ?_⟩
+  intro s hs
+  obtain ⟨v, hv, hsig, -⟩ := cover_of_string T hT o cl s hs
+  obtain ⟨p, hp, hpf⟩ := h1 v hv
+  obtain ⟨p', hp', hm⟩ := bF_sound T hT o hsz cl v hv
+  rw [hp'] at hpf
+  have hpp : p' = p := Option.some.inj hpf
+  rw [hpp] at hm
+  exact ⟨p, (mem_merged qs p).2 hp, hm s ((mem_bEx T o cl v s).2 ⟨hs, hsig.symm⟩)⟩
 
-theorem extract_sound (T : CharTable) (hT : Consistent T) (o : Opts)
-    (hsz : 1 ≤ o.sizes.maxStringsInGroup)
-    (hprune : o.maxPatterns = none ∧ o.minStrings ≤ 1) (items : List (Option Line × Nat)) :
-    ∃ ps E w, extract T o items = some (ps, E, w) ∧
-      ∀ s ∈ keptExamples o items, ∃ p ∈ ps, Matches T E (wrapWs w p) s := by
-  sorry
+/-- what a successful `batchExtract` consists of -/
+theorem batchExtract_some (T : CharTable) (o : Opts) (cl : Cleaned) (ps : List Pattern) (E : List Char)
+    (h : batchExtract T o cl = some (ps, E)) :
+    ∃ qs, (bVrles T o cl).mapM (bF T o cl) = some qs ∧ ps = merged qs ∧ E = bE o cl := by
+  rw [batchExtract_eq] at h
+  cases hq : (bVrles T o cl).mapM (bF T o cl) with
+  | none => simp [hq] at h
+  | some qs =>
+    simp only [hq, Option.map_some, Option.some.injEq, Prod.mk.injEq] at h
+    exact ⟨qs, rfl, h.1.symm, h.2.symm⟩
 
 /-- every returned pattern comes from a signature group and matches all the (cleaned) examples of
     that group — in particular at least one example -/
@@ -27,22 +377,143 @@ theorem batch_pattern_has_witness (T : CharTable) (hT : Consistent T) (o : Opts)
     (hsz : 1 ≤ o.sizes.maxStringsInGroup) (cl : Cleaned) (ps : List Pattern) (E : List Char)
     (h : batchExtract T o cl = some (ps, E)) :
     ∀ p ∈ ps, ∃ s ∈ cl.strings, Matches T E (wrapWs (decide (cl.nStripped > 0)) p) s := by
-  sorry
+  obtain ⟨qs, hqs, rfl, rfl⟩ := batchExtract_some T o cl ps E h
+  intro p hp
+  obtain ⟨v, hv, hf⟩ := mapM_mem _ _ _ hqs p ((mem_merged qs p).1 hp)
+  obtain ⟨p', hp', hm⟩ := bF_sound T hT o hsz cl v hv
+  rw [hp'] at hf
+  have hpp : p' = p := Option.some.inj hf
+  rw [hpp] at hm
+  obtain ⟨s, hs⟩ := bEx_nonempty T o cl v hv
+  exact ⟨s, ((mem_bEx T o cl v s).1 hs).1, hm s hs⟩
 
 /-- there are never more patterns than distinct cleaned examples, and none for no examples -/
 theorem batch_count_le (T : CharTable) (o : Opts) (cl : Cleaned) (ps : List Pattern) (E : List Char)
     (h : batchExtract T o cl = some (ps, E)) : ps.length ≤ cl.strings.eraseDups.length := by
-  sorry
+  obtain ⟨qs, hqs, rfl, rfl⟩ := batchExtract_some T o cl ps E h
+  rw [merged_length, mapM_length _ _ _ hqs]
+  refine Nat.le_trans (toVrles_length_le _) ?_
+  refine Nat.le_trans (eraseDups_length_le _ _ (Nat.le_refl _)) ?_
+  exact eraseDups_map_length_le _ _
+
+/-! ### `extract` -/
+
+theorem extract_empty (T : CharTable) (o : Opts) (items : List (Option Line × Nat))
+    (h : (clean o.stripOpt o.removeEmpties items).strings = []) : extract T o items = some ([], [], false) := by
+  unfold extract
+  simp [h]
+
+theorem extract_of_batch (T : CharTable) (o : Opts) (items : List (Option Line × Nat))
+    (qs : List Pattern) (E : List Char)
+    (hne : (clean o.stripOpt o.removeEmpties items).strings ≠ [])
+    (hb : batchExtract T o (clean o.stripOpt o.removeEmpties items) = some (qs, E)) :
+    extract T o items =
+      some ((List.range qs.length).filterMap (fun i =>
+          if (badPatterns o (reFreqs T E (decide ((clean o.stripOpt o.removeEmpties items).nStripped > 0)) qs
+                (clean o.stripOpt o.removeEmpties items))).contains i then none else qs[i]?),
+        E, decide ((clean o.stripOpt o.removeEmpties items).nStripped > 0)) := by
+  unfold extract
+  simp only [hb]
+  rw [if_neg (by simpa [List.isEmpty_iff] using hne)]
 
 /-- pruning options only delete patterns -/
 theorem extract_subset_batch (T : CharTable) (o : Opts) (items : List (Option Line × Nat))
     (ps : List Pattern) (E : List Char) (w : Bool) (h : extract T o items = some (ps, E, w))
     (hne : (clean o.stripOpt o.removeEmpties items).strings ≠ []) :
     ∃ qs, batchExtract T o (clean o.stripOpt o.removeEmpties items) = some (qs, E) ∧ ∀ p ∈ ps, p ∈ qs := by
-  sorry
+  cases hb : batchExtract T o (clean o.stripOpt o.removeEmpties items) with
+  | none =>
+    unfold extract at h
+    simp only [hb] at h
+    rw [if_neg (by simpa [List.isEmpty_iff] using hne)] at h
+    cases h
+  | some qe =>
+    obtain ⟨qs, E'⟩ := qe
+    rw [extract_of_batch T o items qs E' hne hb] at h
+    simp only [Option.some.injEq, Prod.mk.injEq] at h
+    obtain ⟨h1, h2, -⟩ := h
+    subst h2
+    refine ⟨qs, rfl, ?_⟩
+    intro p hp
+    rw [← h1, List.mem_filterMap] at hp
+    obtain ⟨i, -, hi⟩ := hp
+    split at hi
+    · cases hi
+    · exact List.mem_of_getElem? hi
 
-theorem extract_empty (T : CharTable) (o : Opts) (items : List (Option Line × Nat))
-    (h : (clean o.stripOpt o.removeEmpties items).strings = []) : extract T o items = some ([], [], false) := by
-  sorry
+theorem badPatterns_nil (o : Opts) (hprune : o.maxPatterns = none ∧ o.minStrings ≤ 1) (freqs : List Nat) :
+    badPatterns o freqs = [] := by
+  unfold badPatterns
+  have : ¬ o.minStrings > 1 := by omega
+  simp [hprune.1, this]
+
+theorem range_filterMap_getElem? {α : Type} (ps : List α) :
+    ∀ n, (List.range n).filterMap (fun i => ps[i]?) = ps.take n := by
+  intro n
+  induction n with
+  | zero => simp
+  | succ n ih =>
+    rw [List.range_succ, List.filterMap_append, ih, List.take_add_one]
+    cases h : ps[n]? <;> simp [h]
+
+theorem mem_keptExamples (o : Opts) (items : List (Option Line × Nat)) (s : Line)
+    (h : s ∈ keptExamples o items) :
+    ∃ n, (some s, n) ∈ items ∧ n ≠ 0 ∧
+      ¬ (o.removeEmpties = true ∧ (if o.stripOpt then strip s else s) = []) := by
+  unfold keptExamples at h
+  rw [List.mem_filterMap] at h
+  obtain ⟨⟨x, n⟩, hit, hx⟩ := h
+  cases x with
+  | none => simp at hx
+  | some s' =>
+    simp only at hx
+    by_cases hn : (n == 0) = true
+    · rw [if_pos hn] at hx
+      cases hx
+    · rw [if_neg hn] at hx
+      by_cases hre : (o.removeEmpties && (if o.stripOpt then strip s' else s').isEmpty) = true
+      · rw [if_pos hre] at hx
+        cases hx
+      · rw [if_neg hre] at hx
+        cases hx
+        refine ⟨n, hit, by simpa using hn, ?_⟩
+        simpa [List.isEmpty_iff] using hre
+
+theorem extract_sound (T : CharTable) (hT : Consistent T) (o : Opts)
+    (hsz : 1 ≤ o.sizes.maxStringsInGroup)
+    (hprune : o.maxPatterns = none ∧ o.minStrings ≤ 1) (items : List (Option Line × Nat)) :
+    ∃ ps E w, extract T o items = some (ps, E, w) ∧
+      ∀ s ∈ keptExamples o items, ∃ p ∈ ps, Matches T E (wrapWs w p) s := by
+  -- every kept example has its cleaned form among the cleaned strings
+  have hkept : ∀ s ∈ keptExamples o items, ∃ n, (some s, n) ∈ items ∧ n ≠ 0 ∧
+      ¬ (o.removeEmpties = true ∧ (if o.stripOpt then strip s else s) = []) ∧
+      (if o.stripOpt then strip s else s) ∈ (clean o.stripOpt o.removeEmpties items).strings := by
+    intro s hs
+    obtain ⟨n, hit, hn, hre⟩ := mem_keptExamples o items s hs
+    exact ⟨n, hit, hn, hre, (clean_strings _ _ items _).2 ⟨s, n, hit, hn, rfl, hre⟩⟩
+  by_cases hemp : (clean o.stripOpt o.removeEmpties items).strings = []
+  · refine ⟨[], [], false, extract_empty T o items hemp, ?_⟩
+    intro s hs
+    obtain ⟨n, -, -, -, hmem⟩ := hkept s hs
+    rw [hemp] at hmem
+    cases hmem
+  · obtain ⟨ps, E, hb, hm⟩ := batch_extract_sound T hT o hsz (clean o.stripOpt o.removeEmpties items)
+    refine ⟨ps, E, decide ((clean o.stripOpt o.removeEmpties items).nStripped > 0), ?_, ?_⟩
+    · rw [extract_of_batch T o items ps E hemp hb, badPatterns_nil o hprune]
+      simp [range_filterMap_getElem?]
+    · intro s hs
+      obtain ⟨n, hit, hn, hre, hmem⟩ := hkept s hs
+      obtain ⟨p, hp, hmatch⟩ := hm _ hmem
+      refine ⟨p, hp, ?_⟩
+      by_cases hso : o.stripOpt = true
+      · rw [if_pos hso] at hmatch hre
+        apply matches_unstrip T hT E _ p s _ hmatch
+        intro hw
+        have h0 : (clean o.stripOpt o.removeEmpties items).nStripped = 0 := by
+          have := of_decide_eq_false hw
+          omega
+        exact clean_nStripped_zero _ _ items h0 s n hit hn hso hre
+      · rw [if_neg hso] at hmatch
+        exact hmatch
 
 end TddaVerif.Props.C03.Lemmas
